@@ -36,7 +36,7 @@ TIERS = {
     "thorough": {"wall": 900, "chunk": 8, "shrink_budget": 300, "shrink_wall": 120},
 }
 RULE = (
-    "each evaluation = one (base-directory spelling, location string, entry point) triple against a freshly built adversarial tree; "
+    "each evaluation = one (base-directory spelling, location string, entry point) triple against a freshly built adversarial tree, or one three-step history on a single tensor object (read; change base_dir / add a hard link / swap the file for an out-pointing symlink / release; read again through any entry point); "
     "locations are words over {., .., file and directory names, in/out symlinks, chained/absolute links, hard links, prefix siblings, "
     "empty components, absolute roots} generated target-first (a spelling of a chosen inside or outside file) or at random, up to 6 "
     "components; thorough additionally enumerates all words of <= 3 components x all base spellings x the tensor-level entry points; "
@@ -56,7 +56,7 @@ REAL_STUB = {
 EXHAUSTIVE = {"quick": False, "thorough": False}
 
 INSIDE_FILES = ["model/a.bin", "model/sub/b.bin", "model/sub/deeper/c.bin", "model/hl.bin", "model/m_data.bin"]
-OUTSIDE_FILES = ["model_evil/e.bin", "modelx/x.bin", "secret/s.bin", "secret/h.bin", "secret/sub/t.bin", "top.bin"]
+OUTSIDE_FILES = ["model_evil/e.bin", "modelx/x.bin", "secret/s.bin", "secret/h.bin", "secret/sub/t.bin", "top.bin", "alt2/a.bin", "alt2/sub/b.bin"]
 HARDLINKS = {"model/hard_out": "secret/h.bin", "model/hard_in2": "model/hl.bin", "secret/hl_alias": "model/sub/deeper/c.bin"}
 SYMLINKS = {
     "model/link_in": "a.bin",
@@ -74,8 +74,10 @@ SYMLINKS = {
     "model/dangling": "nowhere.bin",
     "mlink": "model",
     "secret/back": "../model",
+    "alt/a.bin": "../secret/s.bin",
+    "alt/sub/b.bin": "../../secret/sub/t.bin",
 }
-DIRS = ["model/sub/deeper", "model/empty", "model_evil", "modelx", "secret/sub", "subx", "out"]
+DIRS = ["model/sub/deeper", "model/empty", "model_evil", "modelx", "secret/sub", "subx", "out", "alt/sub", "alt2/sub"]
 COMPONENTS = [
     ".", "..", "", "a.bin", "sub", "b.bin", "deeper", "c.bin", "hl.bin", "link_in", "dlink_in", "link_out", "dlink_out", "chain", "abs_out",
     "abs_in", "up", "hard_out", "hard_in2", "evil_link", "e.bin", "s.bin", "h.bin", "secret", "model", "model_evil", "modelx", "x.bin", "back", "nonexist",
@@ -110,6 +112,11 @@ MODEL_PATHS = [
     ("model", "sub/../m.onnx"),
 ]
 LOAD_ENTRIES = ["load_numpy", "load_tobytes", "load_tofile"]
+# multi-step histories on ONE tensor object: read, change the world or the base directory, read again
+HIST_LOCS = ["a.bin", "sub/b.bin", "sub/deeper/c.bin", "link_in", "dlink_in/b.bin"]
+HIST_FIRST = ["numpy", "tobytes", "tofile_bytesio", "asarray", "none"]
+HIST_MUTATIONS = ["base_alt", "base_alt2", "base_setter_graph", "hardlink_added", "swapped_for_symlink_out", "none", "release"]
+HIST_SECOND = ["numpy", "asarray", "tobytes", "tofile_bytesio", "tofile_real", "tofile_nocfr", "load_to_model", "convert_from_external", "resave"]
 
 
 def canary(rel: str) -> bytes:
@@ -221,6 +228,9 @@ def gen_case(run_seed: int, tier: str, index: int = 0) -> dict:
         if r.random() < 0.06:
             loc = loc + r.choice(["/", "/.", "//"])
         off, ln = r.choice([(0, 16), (0, 16), (8, 16), (48, 16), (0, 64), (60, 16), (0, 1)])
+        if r.random() < 0.2:
+            triples.append({"level": "history", "loc": r.choice(HIST_LOCS), "first": r.choice(HIST_FIRST), "mutation": r.choice(HIST_MUTATIONS), "entry": r.choice(HIST_SECOND), "off": off if off + ln <= 64 else 0, "len": ln if off + ln <= 64 else 16, "base": 0})
+            continue
         if r.random() < 0.25:
             mp = r.randrange(len(MODEL_PATHS))
             triples.append({"level": "load", "model_path": mp, "loc": loc, "entry": r.choice(LOAD_ENTRIES), "off": off, "len": ln})
@@ -291,6 +301,136 @@ def _write_model_file(path: str, loc: str, off: int, ln: int) -> None:
         f.write(m.SerializeToString())
 
 
+def _tensor_entry(entry: str, t, root: str, seam) -> bytes:
+    out_file = os.path.join(root, "out", "dst.bin")
+    if entry in ("numpy", "size0_numpy"):
+        return t.numpy().tobytes()
+    if entry == "asarray":
+        return np.asarray(t).tobytes()
+    if entry == "tobytes":
+        return bytes(t.tobytes())
+    if entry in ("tofile_bytesio", "size0_tofile"):
+        b = io.BytesIO()
+        t.tofile(b)
+        return b.getvalue()
+    if entry in ("tofile_real", "tofile_nocfr"):
+        seam.hide_copy_file_range = entry == "tofile_nocfr"
+        try:
+            with open(out_file, "wb") as f:
+                t.tofile(f)
+        finally:
+            seam.hide_copy_file_range = False
+        with open(out_file, "rb") as f:
+            return f.read()
+    if entry == "load_to_model":
+        m = _model_with(t)
+        _ed.load_to_model(m)
+        return bytes(m.graph.initializers["x"].const_value.tobytes())
+    if entry == "convert_from_external":
+        (mem,) = _ed.convert_tensors_from_external([t])
+        return bytes(mem.tobytes())
+    if entry == "resave":
+        m = _model_with(t)
+        _ed.unload_from_model(m, os.path.join(root, "out"), "w2.data", size_threshold_bytes=0)
+        with open(os.path.join(root, "out", "w2.data"), "rb") as f:
+            return f.read()
+    raise ValueError(entry)
+
+
+def _forbidden_now(root: str, base: str) -> dict:
+    realbase = os.path.realpath(base)
+    out = {}
+    for d, _dirs, files in os.walk(root):
+        for fn in files:
+            p = os.path.join(d, fn)
+            if os.path.islink(p):
+                continue
+            try:
+                st_ = os.stat(p)
+            except OSError:
+                continue
+            rp = os.path.realpath(p)
+            if not rp.startswith(realbase + os.sep) or st_.st_nlink > 1:
+                out[(st_.st_dev, st_.st_ino)] = os.path.relpath(p, root)
+    return out
+
+
+def run_history(tr: dict, root: str, seam, inc) -> tuple | None:
+    """read -> change the world / the base directory -> read again, on ONE tensor object."""
+    os.chdir(root)
+    base1 = os.path.join(root, "model")
+    loc, off, ln = tr["loc"], tr["off"], tr["len"]
+    t = _mk_tensor(loc, base1, off, ln)
+    first_bytes = None
+    if tr["first"] != "none":
+        try:
+            first_bytes = _tensor_entry(tr["first"], t, root, seam)
+            inc("history_first_read_ok")
+        except Exception:  # noqa: BLE001
+            inc("history_first_read_raised")
+    undo = []
+    mut = tr["mutation"]
+    try:
+        if mut == "base_alt":
+            t.base_dir = os.path.join(root, "alt")
+        elif mut == "base_alt2":
+            t.base_dir = os.path.join(root, "alt2")
+        elif mut == "base_setter_graph":
+            m = _model_with(t)
+            _ed.set_base_dir(m.graph, os.path.join(root, "alt"))
+        elif mut == "hardlink_added":
+            target = os.path.realpath(os.path.join(base1, loc))
+            extra = os.path.join(root, "out", "extra_hl")
+            os.link(target, extra)
+            undo.append(lambda: os.unlink(extra))
+        elif mut == "swapped_for_symlink_out":
+            target = os.path.realpath(os.path.join(base1, loc))
+            os.rename(target, target + ".bak")
+            os.symlink(os.path.join(root, "secret", "s.bin"), target)
+            undo.append(lambda: (os.unlink(target), os.rename(target + ".bak", target)))
+        elif mut == "release":
+            t.release()
+        inc("history_mutation_" + mut)
+        seam.reads.clear()
+        seam.effects.clear()
+        got = None
+        raised = None
+        try:
+            got = _tensor_entry(tr["entry"], t, root, seam)
+        except Exception as e:  # noqa: BLE001
+            raised = e
+        base_now = os.fspath(t.base_dir)
+        realbase_now = os.path.realpath(base_now)
+        allowed, den_rel, exists, _inside = denotes(root, root, base_now, loc, realbase_now)
+        forb = _forbidden_now(root, base_now)
+        byte_reads = [(k, ino) for (k, _p, ino) in seam.reads if k in ("read", "mmap", "copy_file_range_src")]
+        bad = [(k, forb[ino]) for (k, ino) in byte_reads if ino in forb]
+        desc = f"{tr['first']} -> {mut} -> {tr['entry']} on location {loc!r}"
+        if bad:
+            return ("read-forbidden-file", f"history {desc}: the second access read bytes of {bad[0][1]} via {bad[0][0]} ({'returned' if raised is None else 'raised ' + type(raised).__name__})", f"read-forbidden-file|history|{mut}")
+        if raised is None:
+            inc("history_second_returned")
+            rereads = tr["entry"] in ("tofile_bytesio", "tofile_real", "tofile_nocfr", "resave")
+            want_now = canary(den_rel)[off : off + ln] if (allowed and den_rel) else None
+            if rereads and not allowed:
+                return ("returned-for-forbidden-location", f"history {desc}: returned {len(got or b'')} bytes although the location now denotes {den_rel if exists else 'no file'} (not allowed)", f"returned-for-forbidden-location|history|{mut}")
+            if got is not None and got != want_now and (first_bytes is None or got != first_bytes or rereads):
+                return ("wrong-bytes", f"history {desc}: returned bytes that are neither the current file's slice nor the bytes read before", f"wrong-bytes|history|{mut}")
+        else:
+            inc("history_second_raised")
+        return None
+    finally:
+        for u in reversed(undo):
+            try:
+                u()
+            except Exception:  # noqa: BLE001
+                pass
+        try:
+            t.release()
+        except Exception:  # noqa: BLE001
+            pass
+
+
 def run_case(case: dict) -> dict:
     root = workload.new_scratch("c10")
     stats: dict = {}
@@ -324,6 +464,21 @@ def _run(case: dict, root: str, res: dict) -> None:
     with rb:
         fsseam.install_fs(rb, seam)
         for ti, tr in enumerate(case["triples"]):
+            if tr["level"] == "history":
+                hv = run_history(tr, root, seam, inc)
+                inc("evaluations")
+                inc("history_evaluations")
+                res["distinct"].append(digest(("h", tr["loc"], tr["first"], tr["mutation"], tr["entry"], tr["off"], tr["len"])))
+                trail.append((ti, "history", hv[0] if hv else None))
+                if hv is not None:
+                    viol = {"clause": hv[0], "detail": hv[1], "key": hv[2], "triple": tr}
+                    res["violations"].append(viol)
+                    if res["violation"] is None:
+                        res["violation"] = viol
+                        c = copy.deepcopy(case)
+                        c["triples"] = [tr]
+                        res["case"] = c
+                continue
             loc = tr["loc"].replace("{ROOT}", root)
             off, ln = tr["off"], tr["len"]
             if tr["level"] == "tensor":
@@ -480,6 +635,13 @@ def shrink_candidates(case: dict, violation: dict):
             yield c
         return
     tr = case["triples"][0]
+    if tr["level"] == "history":
+        for key, val in (("first", "numpy"), ("off", 0), ("len", 16)):
+            if tr.get(key) != val:
+                c = copy.deepcopy(case)
+                c["triples"][0][key] = val
+                yield c
+        return
     parts = tr["loc"].split("/")
     for i in range(len(parts)):
         if len(parts) > 1:
@@ -502,7 +664,7 @@ def finding_key(case: dict, violation: dict) -> str:
 
 def check_reach(agg: dict, tier: str):
     st = agg["stats"]
-    need = ["reach_allowed_read_succeeded", "outcome_raised_forbidden_location", "loc_denotes_forbidden_or_outside", "loc_denotes_inside_ok"] + ["entry_" + e for e in TENSOR_ENTRIES + LOAD_ENTRIES]
+    need = ["history_second_returned", "history_second_raised"] + ["history_mutation_" + m_ for m_ in HIST_MUTATIONS] + ["reach_allowed_read_succeeded", "outcome_raised_forbidden_location", "loc_denotes_forbidden_or_outside", "loc_denotes_inside_ok"] + ["entry_" + e for e in TENSOR_ENTRIES + LOAD_ENTRIES]
     missing = [k for k in need if not st.get(k)]
     return missing if agg["runs"] > 20 else []
 
